@@ -75,7 +75,7 @@ theorem far_root {f : Forest} {keep : Keep} {c : Nat} {t : HTree} {q : Nat} {vq 
     rw [hset]
     let S : List HTree → List HTree := replaceTop ka.handle (fun k => [k.setValue v])
     have sZ := sq.edit S (by rw [handlesList_setValTop]; exact List.Sublist.refl _)
-    have hcq : c ≠ q := fun e => hq (e ▸ ((findList?_some f.roots t hgc).1 ▸ handle_mem_handles t))
+    have hcq : c ≠ q := fun e => hq (e ▸ ((findList?_some f.roots t hgc).1 ▸ fs_handle_mem_handles t))
     have hZget : (f.editAt (some q) S).get? c = some t := by
       rw [Forest.get?_editAt_other hcq nd (by
         intro v' L' e
@@ -108,7 +108,7 @@ theorem far_kid {f : Forest} {keep : Keep} {po : Nat} {vo : Value} {l : List HTr
   have hleafo := so.leaf inv.valid
   obtain ⟨l1, r1, sX, hX, ⟨hsubl, hsubr⟩, hlk⟩ := hold.site so hleafo
   have hsub : (handlesList (l1 ++ r1)).Sublist (handlesList (l ++ r)) := by
-    rw [handlesList_append, handlesList_append]; exact hsubl.append hsubr
+    rw [fs_handlesList_append, fs_handlesList_append]; exact hsubl.append hsubr
   have hcut := hold.cut_eq inv norm so hkeep
   obtain ⟨ndL, hpoL⟩ := so.nodupKids
   obtain ⟨tl, tr⟩ := tops_ne_of_nodup ndL
@@ -117,7 +117,7 @@ theorem far_kid {f : Forest} {keep : Keep} {po : Nat} {vo : Value} {l : List HTr
   have hpot : po ∉ handles t := by
     intro hin
     apply hpoL
-    rw [handlesList_append, handlesList_cons]
+    rw [fs_handlesList_append, handlesList_cons]
     exact List.mem_append_right _ (List.mem_append_left _ hin)
   have hXpar : (f.removeConsolidate (prevOf l t) (nextOf r t)).1.parent? t.handle = some po :=
     Forest.parent?_of_ctx sX.ctx
@@ -150,7 +150,7 @@ theorem far_kid {f : Forest} {keep : Keep} {po : Nat} {vo : Value} {l : List HTr
     rfl
   have hsub' : (handlesList (l1 ++ r1)).Sublist (handlesList (l ++ t :: r)) := by
     refine hsub.trans ?_
-    simp only [handlesList_append, handlesList_cons]
+    simp only [fs_handlesList_append, handlesList_cons]
     exact (List.Sublist.refl _).append (List.sublist_append_right _ _)
   have sY := so.other sq.kids hne.symm (fun _ => l1 ++ r1) hsub' hlook
   have hlookX : findList? q (l1 ++ t :: r1) = findList? q (l ++ t :: r) := by
@@ -160,7 +160,7 @@ theorem far_kid {f : Forest} {keep : Keep} {po : Nat} {vo : Value} {l : List HTr
       | inr e => exact List.mem_append_right _ (List.mem_cons_of_mem _ e)))
     rw [findList?_append, findList?_append, findList?_cons, findList?_cons, e1, e2]
   have hsubX : (handlesList (l1 ++ t :: r1)).Sublist (handlesList (l ++ t :: r)) := by
-    rw [handlesList_append, handlesList_append, handlesList_cons, handlesList_cons]
+    rw [fs_handlesList_append, fs_handlesList_append, handlesList_cons, handlesList_cons]
     exact hsubl.append ((List.Sublist.refl _).append hsubr)
   have sXq := so.other sq.kids hne.symm (fun _ => l1 ++ t :: r1) hsubX hlookX
   rw [← hX] at sXq
